@@ -1100,12 +1100,21 @@ class Authenticated(BaseClientHandler):
                 if attrs & SPECIAL_USE_ATTR_VALUES
             ]
 
-        # Build a set of all returned folder names so we can verify
-        # \HasChildren / \HasNoChildren correctness.
+        # Get the names of all the folders so we can verify \HasChildren /
+        # \HasNoChildren correctness. NOTE: not only of the folders we are
+        # about to return: `LIST "" "%"` does not return the children and a
+        # parent must still say that it has them.
         #
-        all_names = {name for name, _, _ in results}
+        all_names: set[str] = set()
+        if results:
+            async for (name,) in self.server.db.query(
+                "SELECT name FROM mailboxes "
+                "WHERE attributes NOT LIKE '%ignored%'"
+            ):
+                all_names.add(name)
         for mbox_name, attributes, child_info in results:
-            has_children = any(n.startswith(mbox_name + "/") for n in all_names)
+            db_name = "inbox" if mbox_name == "INBOX" else mbox_name
+            has_children = any(n.startswith(db_name + "/") for n in all_names)
             if has_children:
                 attributes.discard(r"\HasNoChildren")
                 attributes.add(r"\HasChildren")
